@@ -15,7 +15,7 @@ Modes:
 import struct
 import zlib
 
-from sim.core import HarnessError
+from sim.core import SetupViolation, HarnessError
 from sim.ref_ws import DeflateCodec, SenderMonitor, encode_frame, xor_mask
 from worlds.ws import WsWorld, ws_classes
 
@@ -121,9 +121,9 @@ class World(WsWorld):
         e.t.flush(None)
         self.check_escapes()
         if e.p._st != 3:
-            raise HarnessError("canned handshake did not open the connection")
+            raise SetupViolation("valid-handshake-did-not-open-the-connection", "")
         if deflate and e.p._perMessageCompress is None:
-            raise HarnessError("compression not negotiated")
+            raise SetupViolation("compression-not-negotiated-by-valid-handshake", "")
         self.comp = zlib.compressobj(zlib.Z_DEFAULT_COMPRESSION, zlib.DEFLATED, -15) if deflate else None
         self.base_written = e.t.written_total
         if self.mode == "recv":
